@@ -266,12 +266,16 @@ def r02_2(ctx: Ctx) -> None:
     lookup = f"Tokeniser.mapping.get({word})"
     fallbacks = [r for r in walk_local(classify) if isinstance(r, (ast.Return, ast.Assign)) and r.value is not None
                  and txt(r.value) in ("cls.INT", "cls.IDENTIFIER", "cls.TEXT")]
+    member = f"{word} in Tokeniser.mapping"
+    subscript = f"Tokeniser.mapping[{word}]"
     ok = len(fallbacks) == 3 and all(
-        {(f"{lookup} is None", True), (f"{lookup} is not None", False), (lookup, False)} & nnf_literals(resolved_facts(ccfg, r))
-        for r in fallbacks)
+        {(f"{lookup} is None", True), (f"{lookup} is not None", False), (lookup, False), (member, False)}
+        & nnf_literals(resolved_facts(ccfg, r)) for r in fallbacks)
     mapped = [r for r in walk_local(classify) if isinstance(r, ast.Return) and r.value is not None and r not in fallbacks
               and (txt(inline_reaching(ccfg, r, r.value)) == lookup
-                   or any(txt(v) == lookup for n in ast.walk(r.value) if isinstance(n, ast.Name) for v in bound_from(classify, n.id)))]
+                   or any(txt(v) == lookup for n in ast.walk(r.value) if isinstance(n, ast.Name) for v in bound_from(classify, n.id))
+                   or (txt(inline_reaching(ccfg, r, r.value)) == subscript
+                       and (member, True) in nnf_literals(resolved_facts(ccfg, r))))]
     ok = ok and bool(mapped)
     ctx.ob("R02.2", RP, classify, "TokenTypes.classify", "mapping first", ok,
            "a word is classified by the mapping first; only unmapped words become INT / IDENTIFIER / TEXT", form="")
@@ -570,7 +574,8 @@ def r02_6(ctx: Ctx) -> None:
                "from aliases included), so identifiers inside aliases are checked against the signatures",
                detail=f"path avoiding the record: {cfg.describe_path(path)}" if path else "",
                form=txt(records[0]))
-    ok = txt(records[0].args[0]) == "self.current_token"
+    from ..flow import inline_reaching as _reach
+    ok = txt(_reach(cfg, records[0], records[0].args[0])) == "self.current_token"
     ctx.ob("R02.6", RP, records[0], qual, "recorded value", ok, "the token recorded is the token being consumed",
            form=txt(records[0]))
     # alias substitution splices the alias tokens in front of the remaining tokens
